@@ -24,6 +24,9 @@ ATOM_METHODS = {"is_zero", "is_one", "is_negative", "is_positive", "is_power_of_
 _ADT_OF = re.compile(r"^<?&?(BUintD32|BUintD16|BUintD8|BUint|BIntD32|BIntD16|BIntD8|BInt)<")
 
 
+ATOM_ERRORS = []
+
+
 def atom_fids(F):
     """canonical ids of the inherent atom methods, to be kept as terminals when summarising for G rows"""
     out = set()
@@ -405,10 +408,27 @@ def ev(t, env, W):
                 return FL("f32", struct.unpack("<I", struct.pack("<f", d))[0])
             except OverflowError:
                 return FL.of("f32", float("-inf") if d < 0 else float("inf"))
+        if isinstance(b, FL) and t[1] == "FloatToInt" and t[4] in PRIM_BITS:
+            # Rust `as`: truncate toward zero, saturate at the target's bounds, NaN -> 0
+            ty = t[4]
+            nb = PRIM_BITS[ty]
+            lo_, hi_ = (-(1 << (nb - 1)), (1 << (nb - 1)) - 1) if ty.startswith("i") else (0, (1 << nb) - 1)
+            if b.is_nan():
+                return PI(ty, 0)
+            if b.is_inf():
+                return PI(ty, lo_ if b.sign else hi_)
+            from fractions import Fraction
+            q = Fraction(b.magnitude())
+            v_ = int(q)                 # truncation of the magnitude
+            if b.sign:
+                v_ = -v_
+            return PI(ty, min(max(v_, lo_), hi_))
         if isinstance(b, PI) and t[4] in PRIM_BITS:
             return _wrap_prim(t[4], b.v)
         if isinstance(b, bool) and t[4] in PRIM_BITS:
             return _wrap_prim(t[4], int(b))
+        if isinstance(b, tuple) and b and b[0] == "arr" and "Unsize" in str(t[1]):
+            return b        # &[T; N] -> &[T]: the same elements
         return OPAQUE
     if k == "U":
         b = ev(t[2], env, W)
@@ -427,7 +447,15 @@ def ev(t, env, W):
         a, b = ev(t[2], env, W), ev(t[3], env, W)
         return _binop(t[1], a, b)
     if k == "C":
-        return _atom(t, env, W)
+        try:
+            return _atom(t, env, W)
+        except PanicReached:
+            raise
+        except RecursionError:
+            raise
+        except Exception as e:      # an atom that cannot cope with an unexpected argument shape decides nothing
+            ATOM_ERRORS.append("%s: %r" % (t[1], e))
+            return OPAQUE
     return OPAQUE
 
 
@@ -470,6 +498,14 @@ def _binop(op, a, b):
             return x > y
         if op == "Ge":
             return x >= y
+        if op in ("AddChk", "SubChk", "MulChk"):
+            r_ = x + y if op == "AddChk" else (x - y if op == "SubChk" else x * y)
+            nb = PRIM_BITS[a.ty]
+            lo_, hi_ = (-(1 << (nb - 1)), (1 << (nb - 1)) - 1) if a.ty.startswith("i") else (0, (1 << nb) - 1)
+            if not (lo_ <= r_ <= hi_):
+                # the build checks primitive overflow: the compiler-inserted assertion fires here
+                raise PanicReached("other(primitive arithmetic overflow check)", "checked primitive `%s`" % op[:3].lower())
+            return PI(a.ty, r_)
         if op in ("Add", "AddWithOverflow", "AddUnchecked"):
             return _wrap_prim(a.ty, x + y)
         if op in ("Sub", "SubWithOverflow", "SubUnchecked"):
@@ -619,6 +655,16 @@ def _prim_atom(name, label, t, env, W):
             b = PRIM_BITS[ty]
             lo, hi = (-(1 << (b - 1)), (1 << (b - 1)) - 1) if ty.startswith("i") else (0, (1 << b) - 1)
             return ("Ok", PI(ty, args[0].v)) if lo <= args[0].v <= hi else ("Err", OPAQUE)
+        if m.group(2) == "cmp" and len(args) == 2 and isinstance(args[0], PI) and isinstance(args[1], PI):
+            x_, y_ = args[0].v, args[1].v
+            if name == "cmp":
+                return 255 if x_ < y_ else (0 if x_ == y_ else 1)
+            if name == "partial_cmp":
+                return ("Some", 255 if x_ < y_ else (0 if x_ == y_ else 1))
+            if name == "max":
+                return PI(args[0].ty, max(x_, y_))
+            if name == "min":
+                return PI(args[0].ty, min(x_, y_))
         if name == "neg" and len(args) == 1 and isinstance(args[0], PI):
             return _wrap_prim(args[0].ty, -args[0].v)
         if name == "not" and len(args) == 1 and isinstance(args[0], PI):
@@ -681,6 +727,118 @@ def _prim_atom(name, label, t, env, W):
             if name == "wrapping_shl" and len(args) == 2 and isinstance(args[1], PI):
                 return _wrap_prim(ty, x << (args[1].v % b))
         return None
+    mp = re.match(r"^(?:core::str::<impl str>|str)::parse::<(u8|u16|u32|u64|u128|usize|i8|i16|i32|i64|i128|isize)>$", label)
+    if mp and len(t[2]) == 1:
+        s_ = ev(t[2][0], env, W)
+        if isinstance(s_, tuple) and s_ and s_[0] == "str" and all(isinstance(c, PI) for c in s_[1]):
+            ty = mp.group(1)
+            text = bytes(c.v & 255 for c in s_[1])
+            b = PRIM_BITS[ty]
+            lo_, hi_ = (-(1 << (b - 1)), (1 << (b - 1)) - 1) if ty.startswith("i") else (0, (1 << b) - 1)
+            body, neg = text, False
+            if text[:1] == b"+":
+                body = text[1:]
+            elif text[:1] == b"-" and ty.startswith("i"):
+                body, neg = text[1:], True
+            if not body or not all(48 <= c <= 57 for c in body):
+                return ("Err", OPAQUE)
+            v_ = int(body) * (-1 if neg else 1)
+            return ("Ok", PI(ty, v_)) if lo_ <= v_ <= hi_ else ("Err", OPAQUE)
+        return OPAQUE
+    mf = re.match(r"^(?:core::slice::<impl \[T\]>|\[T\])::(first|last)(::<.*>)?$", label)
+    if mf and len(t[2]) == 1:
+        s_ = ev(t[2][0], env, W)
+        if isinstance(s_, tuple) and s_ and s_[0] in ("arr", "str") and isinstance(s_[1], tuple):
+            if not s_[1]:
+                return ("None",)
+            return ("Some", s_[1][0] if mf.group(1) == "first" else s_[1][-1])
+        return OPAQUE
+    mi = re.match(r"^<(u8|u16|u32|u64|u128|usize|i8|i16|i32|i64|i128|isize) as num_integer::Integer>::(is_even|is_odd)$", label)
+    if mi and len(t[2]) == 1:
+        a_ = ev(t[2][0], env, W)
+        if isinstance(a_, PI):
+            return (a_.v % 2 == 0) if mi.group(2) == "is_even" else (a_.v % 2 == 1)
+        return OPAQUE
+    mo = re.match(r"^core::option::Option(::)?<T>::(map|and_then)(::<.*>)?$", label)
+    if mo and len(t[2]) == 2:
+        o = ev(t[2][0], env, W)
+        if o == ("None",):
+            return ("None",)
+        if isinstance(o, tuple) and o and o[0] == "Some":
+            r_ = _apply_closure(t[2][1], [o[1]], env, W)
+            if r_ is OPAQUE:
+                return OPAQUE
+            return ("Some", r_) if mo.group(2) == "map" else r_
+        return OPAQUE
+    # ---- a finite iterator model ("iter", (items...)): the documented meaning of the std adaptors that bnum's Sum /
+    #      Product impls use; closures are applied through their own summaries
+    mit = re.match(r"^(?:core::iter::)?Iterator::(fold|copied|cloned|map|reduce|sum|product|rev)(::<.*>)?$", label)
+    if mit and t[2]:
+        it = ev(t[2][0], env, W)
+        if not (isinstance(it, tuple) and it and it[0] == "iter"):
+            return OPAQUE
+        items = list(it[1])
+        op = mit.group(1)
+        if op in ("copied", "cloned") and len(t[2]) == 1:
+            return it
+        if op == "rev" and len(t[2]) == 1:
+            return ("iter", tuple(reversed(items)))
+        if op == "map" and len(t[2]) == 2:
+            out_ = []
+            for x_ in items:
+                y_ = _apply_closure(t[2][1], [x_], env, W)
+                if y_ is OPAQUE:
+                    return OPAQUE
+                out_.append(y_)
+            return ("iter", tuple(out_))
+        if op == "fold" and len(t[2]) == 3:
+            acc = ev(t[2][1], env, W)
+            for x_ in items:
+                if acc is OPAQUE:
+                    return OPAQUE
+                acc = _apply_closure(t[2][2], [acc, x_], env, W)
+            return acc
+        if op == "reduce" and len(t[2]) == 2:
+            if not items:
+                return ("None",)
+            acc = items[0]
+            for x_ in items[1:]:
+                acc = _apply_closure(t[2][1], [acc, x_], env, W)
+                if acc is OPAQUE:
+                    return OPAQUE
+            return ("Some", acc)
+        if op in ("sum", "product") and len(t[2]) == 1 and mit.group(2):
+            # Iterator::sum::<I, S>() is S::sum(iter): descend into the crate's own Sum / Product impl for S
+            g = [x.strip() for x in mit.group(2)[3:-1].split(", ")]
+            tgt = g[-1]
+            ma = re.match(r"^(BUintD32|BUintD16|BUintD8|BUint|BIntD32|BIntD16|BIntD8|BInt)<N>$", tgt)
+            if ma and _DESCEND is not None:
+                trait = "core::iter::Sum" if op == "sum" else "core::iter::Product"
+                for item_ty in (tgt, "&" + tgt):
+                    lab = "<%s as %s<%s>>::%s" % (tgt, trait, item_ty, op)
+                    if _DESCEND[1].root_of(lab) is not None:
+                        return _descend(lab, None, ("C", lab, (t[2][0],)), env, W)
+        return OPAQUE
+    mud = re.match(r"^core::option::Option(::)?<T>::unwrap_or_default(::<.*>)?$", label)
+    if mud and len(t[2]) == 1:
+        o = ev(t[2][0], env, W)
+        if isinstance(o, tuple) and o and o[0] == "Some":
+            return o[1]
+        if o == ("None",) and mud.group(2) and _DESCEND is not None:
+            tgt = mud.group(2)[3:-1].strip()
+            lab = "<%s as core::default::Default>::default" % tgt
+            if re.match(r"^(BUintD32|BUintD16|BUintD8|BUint|BIntD32|BIntD16|BIntD8|BInt)<N>$", tgt) and _DESCEND[1].root_of(lab) is not None:
+                return _descend(lab, None, ("C", lab, ()), env, W)
+        return OPAQUE
+    mr = re.match(r"^core::ops::(Range|RangeInclusive)<Idx>::contains(::<.*>)?$", label)
+    if mr and len(t[2]) == 2:
+        r_, x_ = ev(t[2][0], env, W), ev(t[2][1], env, W)
+        if isinstance(r_, tuple) and r_ and r_[0] == "struct" and isinstance(x_, PI):
+            f = dict(r_[2])
+            lo_, hi_ = f.get("start"), f.get("end")
+            if isinstance(lo_, PI) and isinstance(hi_, PI) and (mr.group(1) == "Range" or f.get("exhausted") in (False, None, 0)):
+                return lo_.v <= x_.v and (x_.v < hi_.v if mr.group(1) == "Range" else x_.v <= hi_.v)
+        return OPAQUE
     if re.match(r"^core::option::Option(::)?<T>::unwrap_unchecked(::<.*>)?$", label) and len(t[2]) == 1:
         o = ev(t[2][0], env, W)
         if isinstance(o, tuple) and o and o[0] == "Some":
@@ -961,6 +1119,39 @@ _DESCEND = None        # set by core: (Summarizer, Facts)
 _DEPTH = [0]
 
 
+def _apply_closure(cterm, args, env, W):
+    """value of calling the closure term on already evaluated arguments (its body must be a summarisable wrapper)"""
+    if _DESCEND is None or _DEPTH[0] > 6 or not (isinstance(cterm, tuple) and cterm and cterm[0] == "CLOS"):
+        return OPAQUE
+    S, F = _DESCEND
+    root = F.root_of(cterm[1])
+    if root is None:
+        # closures are not roots: take the instance created for the enclosing function's identity instantiation
+        d = F.lookup(cterm[1])
+        cands = [n for n, i in enumerate(F.instances) if i["d"] == d] if d is not None else []
+        if not cands:
+            return OPAQUE
+        root = cands[0]         # instances of one closure differ only in the (unused here) iterator type arguments
+    if F.instances[root]["d"] not in F.bodies:
+        return OPAQUE
+    tree = S.summary(root)
+    if tree is None or tree[0] == "?":
+        return OPAQUE
+    env2 = {0: ("tuple", tuple(ev(c, env, W) for c in cterm[2]))}
+    for i, a in enumerate(args):
+        env2[i + 1] = a
+    _DEPTH[0] += 1
+    try:
+        o, path = outcome(tree, env2, W)
+    finally:
+        _DEPTH[0] -= 1
+    if o[0] == "panic":
+        raise PanicReached(o[1], cterm[1])
+    if o[0] == "ret":
+        return o[1]
+    return OPAQUE
+
+
 def _descend(label, generic_suffix, t, env, W):
     """Interpret a call of a local wrapper that was too large to inline by walking its own guard tree."""
     if _DESCEND is None or _DEPTH[0] > 6:
@@ -976,19 +1167,69 @@ def _descend(label, generic_suffix, t, env, W):
     tree = S.summary(root)
     if tree is None or tree[0] == "?":
         return OPAQUE
+    W2 = _callee_world(F, root, W)
+    if W2 is None:
+        return OPAQUE
     env2 = {}
     for i, a in enumerate(t[2]):
-        env2[i] = ev(a, env, W)
+        env2[i] = _retag(ev(a, env, W), W, W2)
     _DEPTH[0] += 1
     try:
-        o, path = outcome(tree, env2, W)
+        o, path = outcome(tree, env2, W2)
     finally:
         _DEPTH[0] -= 1
     if o[0] == "panic":
         raise PanicReached(o[1], label)
     if o[0] == "ret":
-        return o[1]
+        return _retag(o[1], W2, W)
     return OPAQUE
+
+
+def _callee_world(F, inst_idx, W):
+    """The callee's own const parameters are named N / M too: bind them from the instance's generic arguments
+    (`cast_from::<M, N>` inside a caller whose N is the *source* width).  None when an argument cannot be valued."""
+    inst = F.instances[inst_idx]
+    names = F.defs[inst["d"]].get("generics") or []
+    args = inst["a"] or []
+    if not names or len(names) > len(args):
+        return W
+    n2, m2 = W.n, W.m
+    for nm, a in zip(names, args):
+        if nm not in ("N", "M"):
+            continue
+        a = str(a).strip()
+        if a == "N":
+            v = W.n
+        elif a == "M":
+            v = W.m
+        elif a.isdigit():
+            v = int(a)
+        else:
+            return None
+        if v is None:
+            return None
+        if nm == "N":
+            n2 = v
+        else:
+            m2 = v
+    if (n2, m2) == (W.n, W.m):
+        return W
+    W2 = World(n2, W.cparams, m2)
+    if hasattr(W, "K"):
+        W2.K = W.K
+    return W2
+
+
+def _retag(v, Wfrom, Wto):
+    """a big-integer value carries its digit count only when it differs from the world's N: re-express it for another world"""
+    if Wfrom is Wto:
+        return v
+    if isinstance(v, BN):
+        actual = v.n or Wfrom.n
+        return BN(v.adt, v.v, None if actual == Wto.n else actual)
+    if isinstance(v, tuple):
+        return tuple(_retag(x, Wfrom, Wto) for x in v)
+    return v
 
 
 def _cmp_name(name, x, y):
